@@ -192,3 +192,11 @@ fn verif_c04_from_raw_many_siblings() {
         Ok(r) => println!("NO-WITNESS D12: from_raw returned {:?}", r.map_err(|e| e.to_string())),
     }
 }
+
+// further native checks of the types crate share this hook
+mod verif_shwap {
+    include!(concat!(env!("LUMINA_VERIF_DIR"), "/native/types/shwap.rs"));
+}
+mod verif_merkle {
+    include!(concat!(env!("LUMINA_VERIF_DIR"), "/native/types/merkle.rs"));
+}
